@@ -15,7 +15,7 @@ def items():
     out = []
     for d in sorted(glob.glob('/verif/seeded/C*')):
         out.append(('S-' + os.path.basename(d), d + '/patch.diff', 'seeded', os.path.basename(d)[:3]))
-    for d in sorted(glob.glob('/tmp/w3out/C*/[EF]')) + sorted(glob.glob('/tmp/w4out/C*/[GH]')) + sorted(glob.glob('/tmp/w5out/C*/[IJ]')) + sorted(glob.glob('/tmp/w6out/C*/[KL]')) + sorted(glob.glob('/tmp/w7out/C*/[MN]')) + sorted(glob.glob('/tmp/w8out/C*/[PQ]')):
+    for d in sorted(glob.glob('/tmp/w3out/C*/[EF]')) + sorted(glob.glob('/tmp/w4out/C*/[GH]')) + sorted(glob.glob('/tmp/w5out/C*/[IJ]')) + sorted(glob.glob('/tmp/w6out/C*/[KL]')) + sorted(glob.glob('/tmp/w7out/C*/[MN]')) + sorted(glob.glob('/tmp/w8out/C*/[PQ]')) + sorted(glob.glob('/tmp/w9out/C*/[ST]')):
         k = 'W-%s%s' % (os.path.basename(os.path.dirname(d)), os.path.basename(d))
         if os.path.exists(d + '/patch.diff') and not os.path.exists('/verif/seeded/' + k[2:]):
             out.append((k, d + '/patch.diff', 'seeded', os.path.basename(os.path.dirname(d))))
